@@ -1,4 +1,4 @@
-(* GENERATED on every run by harness/props/c20.py from /tmp/refchk_C20_r6 - do not edit *)
+(* GENERATED on every run by harness/props/c20.py from /repo - do not edit *)
 From Coq Require Import List String.
 Import ListNotations.
 Open Scope string_scope.
